@@ -48,7 +48,7 @@ CHECKS["C01"] = {
             "capacities 200 and 256 are depth-bounded from seeds of length 0,1,N-1,N. The property is about what one call leaves behind for the next, which is exactly what state-space search decides.",
     "design_ref": "DESIGN.md section 3, C01",
     "note": "Trusted: libstdc++ std::basic_string; resize(n) modelled as blank fill. Bounds: character alphabet {a,b} (+ blank, NUL through counted overloads), N=3 (thorough 4), positions 0..N+1/far/npos, "
-            "source operands of length <= 2, N, N+1. No self-aliasing arguments, no calls undefined for std::string; wchar_t is ill-formed on this tree and not instantiated.",
+            "source operands of length <= 2, N, N+1. Self-aliasing arguments (own data / iterators / the string itself) are in the alphabet; no calls undefined for std::string; wchar_t is ill-formed on this tree and not instantiated.",
     "technique": "explicit-state model checking of the implementation (BFS to fixpoint over raw object states, std::basic_string as lock-step reference model)",
 }
 CHECKS["C02"] = {
